@@ -228,15 +228,13 @@ func pairCase(c *core.Ctx, j pairJob) {
 		stop, _ := clientStopStart(ar.conn, j.HistID)
 		var serr error
 		okStop := bounded(func() { serr = stop() })
-		if okStop && serr == nil && j.HistID != 4 {
-			// the accepting side's responder restarts on the Done: wait until it is back
-			okStop = waitFor(rb, wb, func() bool { return rb.count("handled", protocol.ProtocolRoleServer, int(j.HistID)) > 0 }, watchdog)
-		}
+		// (the Done that Stop sends makes the accepting side's responder of HistID restart, if it
+		// gets written before Stop gives up waiting; no probe below targets that instance)
 		if _, bad := wa.first(); bad || !okStop || serr != nil {
 			ea, _ := wa.first()
 			eb, _ := wb.first()
 			teardown()
-			c.Inconclusive(fmt.Sprintf("pair %+v: the history did not complete (Stop returned=%v err=%v, errors %v / %v)", j, okStop, serr, ea, eb))
+			c.Inconclusive(fmt.Sprintf("pair %+v: the history did not complete (Stop returned=%v err=%v, errors %v / %v) stalled frames: %v", j, okStop, serr, ea, eb, lastStall.Load()))
 			return
 		}
 		if eb, bad := wb.first(); bad {
